@@ -265,6 +265,17 @@ class Machine:
             res = (cls.as_obj(payload) if fmt == 0 else cls.from_json(payload) if fmt == 1
                    else cls.from_msgpck(payload) if fmt == 2 else cls.from_yaml(payload))
             new_roots.append(res)
+        elif kind == "origin_merge":
+            from pyoak.origin import concat_origins, merge_origins
+
+            a, b = self.node(o[1], o[2]), self.node(o[3], o[4])
+            extra = og.build_origin(["code", 2, 1, 3], self.sources)
+            _ = a.origin + b.origin
+            _ = b.origin + a.origin
+            _ = merge_origins(a.origin, b.origin, extra)
+            _ = merge_origins(a.origin, extra)
+            _ = concat_origins(a.origin, extra, b.origin)
+            _ = a.origin + extra
         elif kind == "compare":
             a, b = self.node(o[1], o[2]), self.node(o[3], o[4])
             _ = (a == b, a != b, b == a, hash(a), hash(b), a.is_equal(b), a == 1, a != None)  # noqa: E711
@@ -331,6 +342,7 @@ def st_program(ctx: Ctx):
         st.tuples(st.just("ser"), s, s, small, small),
         st.tuples(st.just("ser_drop"), s, st.just(0), small, small),
         st.tuples(st.just("compare"), s, s, s, s),
+        st.tuples(st.just("origin_merge"), s, s, s, s),
         st.tuples(st.just("props"), s, s, small),
         st.tuples(st.just("rich"), s, s),
         st.tuples(st.just("setattr"), s, s),
